@@ -24,7 +24,7 @@ from pathlib import Path
 
 from common import Suite, Violation, err_enum, quiet, scratch_dir
 
-ALPHA = ["a", "b", " ", "\t", "\n", "'", '"', "\\", "$", "*", ";", "=", "-", "#", "é"]
+ALPHA = ["a", "b", " ", "\t", "\n", "'", '"', "\\", "$", "*", ";", "=", "-", "#", "é", "{", "}", "%", "{0}", "{name}"]
 ALPHA_X = ALPHA + ["\r", "'", '"', "\\", " "]          # random stream: a little more quoting, plus \r
 SUB10 = ["a", " ", "\t", "\n", "'", '"', "\\", "$", "#", "é"]
 CORE5 = ["a", " ", "'", '"', "\\"]                       # thorough: exhaustive for lengths 6 and 7 as well
@@ -242,7 +242,7 @@ class CommandSuite(Suite):
         if r < .06:
             return ""
         if r < .45:
-            return "".join(rng.choice("ab$*;=-#é") for _ in range(rng.randint(1, maxlen)))
+            return "".join(rng.choice("ab$*;=-#é{}%") for _ in range(rng.randint(1, maxlen)))
         return "".join(rng.choice(ALPHA) for _ in range(rng.randint(1, maxlen)))
 
     def _quote(self, rng, tok):
@@ -281,7 +281,8 @@ class CommandSuite(Suite):
             prog = rng.choice(["python run.py", "bash run_job.sh", "/bin/echo", "julia --project=. sim.jl"])
             args = []
             for _ in range(rng.randint(0, 4)):
-                v = rng.choice(["a b", "c d", "e f", "x", "1", "a'b", 'q"r', "p\\q", "$HOME", "*.csv", "", "é t"])
+                v = rng.choice(["a b", "c d", "e f", "x", "1", "a'b", 'q"r', "p\\q", "$HOME", "*.csv", "", "é t",
+                                '{"scale":0.5}', "{}", "{name}_*.csv", "{{print $1}}", "100%", "%s", "{output_dir}"])
                 k = rng.choice(["--x=", "--name=", "-o", ""])
                 style = rng.randint(0, 3)
                 if style == 0:
